@@ -16,6 +16,7 @@ Step == /\ l <= Len(TraceLog)
                r == Run(e.instr, e.before, NoEnv, 50) IN
            IF ~SlotsOK(e.before) THEN Reject(e, "before-illtyped", TypesOf(e.before))
            ELSE IF IsIll(ty) THEN Reject(e, "illtyped", ty)
+           ELSE IF r = Err("native") \/ r = Err("symbolic") THEN TRUE
            ELSE IF e.status = "ok"
                 THEN IF r = <<"ok", e.after>> THEN (IF TypesOf(e.after) = ty THEN TRUE ELSE Reject(e, "static-type", ty))
                      ELSE Reject(e, "result", r)
